@@ -676,7 +676,8 @@ pub fn gen_string(rng: &mut Rng) -> String {
     if rng.chance(1, 2) {
         return rng.pick(&STRINGS).to_string();
     }
-    let n = rng.usizer(0, 10);
+    // 1 in 40 strings is long (more than 255 characters per line / in total)
+    let n = if rng.chance(1, 40) { rng.usizer(250, 330) } else { rng.usizer(0, 10) };
     let mut s = String::new();
     for _ in 0..n {
         let c = match rng.below(12) {
@@ -738,7 +739,7 @@ pub fn gen_custom_string(rng: &mut Rng, f: &CustomFontD) -> String {
         }
         None => f.mapping.chars().count() as u32,
     };
-    let n = rng.usizer(0, 7);
+    let n = if rng.chance(1, 40) { rng.usizer(250, 330) } else { rng.usizer(0, 7) };
     let mut s = String::new();
     for _ in 0..n {
         match rng.below(10) {
